@@ -510,8 +510,10 @@ fn run_case(
     let (b, res) = apply_ops(ops, "");
     // interleave: protocol wants `res` after each op; emit them in order after the ops block
     out.extend(res);
+    let t0 = std::time::Instant::now();
     let (g, built) = build(b);
     out.push(built);
+    out.push(format!("timing build_ms={}", t0.elapsed().as_millis()));
     let mut g = match g {
         Some(g) => g,
         None => {
@@ -686,11 +688,8 @@ fn kpops_main(sizes: &str) {
                     }
                 }
             } else {
-                // dense part next to an unconnected chain of the same depth (writers of one type, so
-                // the augmenter has to answer many "no path" queries across the two parts)
-                for i in 0..n {
-                    ops[i] = Op::Fn { tag: 0, r: vec![], w: if i % 7 == 0 { vec![0] } else { vec![] } };
-                }
+                // dense part next to an unconnected chain of the same depth: the augmenter has to
+                // answer many "no path" queries across the two parts
                 let h = n / 2;
                 for a in 0..h {
                     for b in a + 1..h {
